@@ -408,6 +408,8 @@ class FlowDomain(Domain):
     def on_leaf_await(self, ip, fr, tok, tags, bi, term, fut):
         if fut.kind in ('lock', 'trait_fn', 'ext') and any(x[0] == 'NEEDFLAG' for x in tok):
             tok = self.check_needflag(ip, fr, bi, tok, 'the task suspends at %s' % fr.where(bi))
+        if fut.kind in ('lock', 'trait_fn', 'ext'):
+            tok = tok - {('FLAGSET',)}
         if fut.kind == 'lock':
             cls = self.f.types[fut.cls]
             if cls.get('p') == 'std::collections::HashMap':
@@ -747,6 +749,8 @@ class FlowDomain(Domain):
                     return [(tok, None)]
                 self._site('topdirty', fr, bi, c)
                 self.on_effect(ip, fr, bi, tok, 'DIRTY', c)
+                if ('FLAGSET',) in tok:
+                    return [(tok | {('RAM', c)}, None)]
                 return [(tok | {('RAM', c), ('NEEDFLAG', short(fr.body.path))}, None)]
             return [(tok, None)]
         if callee.endswith('::get_dirty_entries') and 'AsyncLruCache' in callee:
@@ -951,8 +955,10 @@ class FlowDomain(Domain):
         if field == 'need_flush':
             self._site('flag', fr, bi, str(val))
             if val == 'T':
-                return frozenset(x for x in tok if x[0] != 'NEEDFLAG')
+                # the flag is up from here to the next suspension: a dirtying event right after it is covered too
+                return frozenset(x for x in tok if x[0] != 'NEEDFLAG') | {('FLAGSET',)}
             if val == 'F':
+                tok = tok - {('FLAGSET',)}
                 ram = sorted(x[1] for x in tok if x[0] == 'RAM')
                 self._ob('C18.2', fr, bi, not ram, 'need_flush cleared in %s; RAM-dirty kinds at that point: %s' % (me, ram))
                 if ram:
@@ -971,6 +977,8 @@ class FlowDomain(Domain):
                 out = frozenset(x for x in tok if not (x[0] == 'MUT' and x[1] == kind)
                                 and not (x[0] == 'F' and len(x) > 2 and x[1] in ('CLEANED', 'CLEANPENDING') and x[2] == cls))
                 ram = 'RC' if cls == 'RB' else 'L2'
+                if ('FLAGSET',) in tok:
+                    return out | {('RAM', ram)}
                 return out | {('NEEDFLAG', me), ('RAM', ram)}
             if val == 'F':
                 out = set(tok)
